@@ -12,7 +12,7 @@ PRIMARY = {
     '2eaf189': ['C06', 'C10'], 'e09ca51': ['C05'], '447d05e': ['C04'], '61201b7': ['C05'], '176644f': ['C15'],
     'af11007': ['C14'], 'd4594d7': ['C19'], '5dee3dd': ['C19'], 'd6fb045': ['C20'], '3a4f30b': ['C05'],
     '25386e9': ['C16'], 'a6e0433': ['C18'], 'db882e5': ['C05'],
-    'd77b828': ['C14'], 'e3a9a38': ['C04'], '54da3d0': ['C02'], 'ee6687e': ['C13'], '53a4476': ['C02'], 'f6f0f66': ['C03'], '82ade49': ['C04'],
+    'd77b828': ['C14'], 'e3a9a38': ['C04'], '54da3d0': ['C02'], 'ee6687e': ['C13'], '53a4476': ['C02'], 'f6f0f66': ['C03'], '82ade49': ['C04'], 'fac76fd': ['C05'],
 }
 
 
